@@ -77,6 +77,14 @@ def gen_stream_plan(rng, sc, nsrc=None, maxlen=120, kind='user', density=None, k
     if chain:
         for _ in range(n - 1):
             it.wraps.append(Op('SET_YYIN'))
+    if rng.random() < 0.2:
+        # one source says "end" although data remain, and yywrap answers 0 without doing anything:
+        # the same stream goes on (whether yylex or yyinput ran into the end indication)
+        j = rng.randrange(len(p.sources))
+        sch = list(p.sources[j].sched)
+        sch.insert(rng.randint(0, len(sch)), 'E')
+        p.sources[j].sched = sch
+        it.wraps.insert(min(j, len(it.wraps)), Op('NOP'))
     return p
 
 
@@ -211,14 +219,16 @@ def gen_eof_plan(rng, sc):
     it.top.append(Op('LEX', a=5000))
     it.top.append(Op('DESTROY'))
     # yywrap policy
-    for _ in range(rng.randint(0, n)):
-        it.wraps.append(Op(rng.choice(['SET_YYIN', 'SET_YYIN', 'SWITCHNEW', 'STOP', 'PUSHNEW']), a=rng.choice([1, 2, 5, 16, 16384])))
+    for _ in range(rng.randint(0, n + 2)):
+        # (POP_BUF: back to the buffer below, skipped unless there is one; NOP: yywrap answers 0
+        # without doing anything - the same stream goes on after an end indication, a terminal after ^D)
+        it.wraps.append(Op(rng.choice(['SET_YYIN', 'SET_YYIN', 'SWITCHNEW', 'STOP', 'PUSHNEW', 'PUSHNEW', 'POP_BUF', 'POP_BUF', 'NOP']), a=rng.choice([1, 2, 5, 16, 16384])))
     # action scripts: a few edit ops, and scripts for the EOF actions (any
     # ordinal may turn out to be an EOF action: ops not allowed there are skipped)
     acts = text_ops(rng, sc, rng.choice([0.0, 0.1, 0.3]), ['INPUT', 'UNPUT', 'MORE', 'BEGIN', 'RETURN', 'LESS'])
     for o in range(0, 120):
         if rng.random() < 0.25:
-            k = rng.choice(['NEWFILE', 'TERMINATE', 'RETURN', 'BEGIN', 'SWITCHNEW', 'POP_BUF', 'NEWFILE'])
+            k = rng.choice(['NEWFILE', 'TERMINATE', 'RETURN', 'BEGIN', 'SWITCHNEW', 'POP_BUF', 'NEWFILE', 'PUSHNEW', 'PUSHNEW'])
             acts.append((o, Op(k, a=rng.randint(0, 7))))
     acts.sort(key=lambda x: x[0])
     it.acts = acts
@@ -258,7 +268,9 @@ def gen_buffer_plan(rng, sc):
     for _ in range(rng.randint(2, 8)):
         it.top.append(Op('LEX', a=rng.choice([1, 2, 3, 5, 20, 5000])))
         for _ in range(rng.randint(0, 2)):
-            it.top.append(bufop('top'))
+            # (a new input stream between two yylex calls: C scanners may only do that before the first
+            # call or after the end of input, the C++ lexer any time through switch_streams())
+            it.top.append(bufop('top') if rng.random() < 0.85 else Op('SET_YYIN'))
         if rng.random() < 0.15:
             it.top.append(Op('SETBOL', a=rng.randint(0, 1)))
         if sc.flavor != 'nr' and rng.random() < 0.15:
